@@ -114,6 +114,9 @@ def opt {α} (p : P α) : P (Option α) := do
   else if t = "o+" then some <$> p
   else throw s!"bad option token {t}"
 
+instance : Inhabited (Pt2 Float) := ⟨⟨0, 0⟩⟩
+instance : Inhabited (Pt3 Float) := ⟨⟨0, 0, 0⟩⟩
+instance : Inhabited (Pt4 Float) := ⟨⟨0, 0, 0, 0⟩⟩
 def pt2 : P (Pt2 Float) := do return ⟨← f64, ← f64⟩
 def pt3 : P (Pt3 Float) := do return ⟨← f64, ← f64, ← f64⟩
 def pt4 : P (Pt4 Float) := do return ⟨← f64, ← f64, ← f64, ← f64⟩
